@@ -163,7 +163,7 @@ let () =
           incr evc;
           apply (PBase (Fetch (i, j))) false;
           served i j
-      | ["ev"; "late"; i; j] ->
+      | ["ev"; ("late" | "laterace"); i; j] ->
           let i = n_of_dec i and j = n_of_dec j in
           incr evc;
           (* the before/after comparison needs a dump taken after the sweep; in the real interleaving (evDeadLateRace) the two
